@@ -46,6 +46,13 @@ class AVal:
     nonempty: bool = False
     hk: bool = False  # known hashable (was obtained as a mapping key)
 
+    def __hash__(self):
+        h = self.__dict__.get("_h")
+        if h is None:
+            h = hash((self.types, self.org, self.taint, self.elem, self.key, self.tup, self.fields, self.const, self.nonempty, self.hk))
+            object.__setattr__(self, "_h", h)
+        return h
+
     # -- predicates ------------------------------------------------------------------
     @property
     def is_bottom(self):
@@ -217,9 +224,17 @@ def join(a: AVal, b: AVal, depth=MAX_DEPTH) -> AVal:
         tup=tup,
         fields=fields,
         const=cst,
-        nonempty=a.nonempty and b.nonempty,
+        nonempty=_ne(a) and _ne(b) and (a.nonempty or b.nonempty),
         hk=((a.hk if a.is_json else True) and (b.hk if b.is_json else True)) if (a.is_json or b.is_json) else False,
     )
+
+
+_MAYBE_EMPTY = frozenset({"list", "tuple", "dict", "set", "str", "range", "iter", "json", "any", "int", "bytes"})
+
+
+def _ne(v):
+    """v cannot be an empty container: flagged non-empty, or not container-like at all."""
+    return v.nonempty or not (v.types & _MAYBE_EMPTY)
 
 
 def _merge_const(x, y):
